@@ -1187,6 +1187,16 @@ impl MachineState {
     }
 }
 
+
+/// Any integer is an admissible seed: it is reduced modulo 2^64.
+fn seed_to_u64(n: &Integer) -> u64 {
+    let m = Integer::from(u64::MAX) + Integer::from(1);
+    let r = n % &m;
+    let r = if r < Integer::from(0) { r + m } else { r };
+
+    u64::try_from(&r).unwrap_or(0)
+}
+
 impl Machine {
     #[inline(always)]
     pub(crate) fn delete_all_attributes_from_var(&mut self) {
@@ -6914,18 +6924,18 @@ impl Machine {
 
         match Number::try_from((seed, &self.machine_st.arena.f64_tbl)) {
             Ok(Number::Fixnum(n)) => {
-                let n: u64 = Integer::from(n).try_into().unwrap();
+                let n: u64 = n.get_num() as u64;
                 let rng: StdRng = SeedableRng::seed_from_u64(n);
                 self.rng = rng;
             }
             Ok(Number::Integer(n)) => {
-                let n: u64 = (&*n).try_into().unwrap();
+                let n: u64 = seed_to_u64(&n);
                 let rng: StdRng = SeedableRng::seed_from_u64(n);
                 self.rng = rng;
             }
             Ok(Number::Rational(n)) => {
                 if n.denominator() == &UBig::ONE {
-                    let n: u64 = n.numerator().try_into().unwrap();
+                    let n: u64 = seed_to_u64(n.numerator());
                     let rng: StdRng = SeedableRng::seed_from_u64(n);
                     self.rng = rng;
                 }
